@@ -706,6 +706,14 @@ def engine_vs_rational_oracle(rep):
             slow = min(bpms)
             if not rep.expect(abs(back2[i] - off[i]) <= 60000 / slow / 192 + 1e-6, "offgrid_time_comes_back_within_grid", case, f"{off[i]} -> {back2[i]}"):
                 break
+        # the snapper handed to snaps() decides the grid: with a coarse one (denominators <= 4) every returned beat
+        # fraction is the nearest allowed fraction of THAT grid
+        coarse = Snapper(divisions=(1, 2, 3, 4))
+        grid = sorted({Fraction(a, d) for d in (1, 2, 3, 4) for a in range(0, d + 1)})
+        for i, sp in enumerate(tm.snaps(off, coarse)):
+            fr = Fraction(sp.beat) % 1
+            if not rep.expect(fr in grid, "snaps_uses_the_given_snapper", case, f"query {i}: beat {sp.beat} is not on the grid of the snapper passed in (denominators <= 4)"):
+                break
         # cumulative beats: differences equal beat distance, monotone with time, in query order
         beats = tm.beats([float(w) for w in want], sn)
         for i in range(len(q)):
